@@ -33,6 +33,10 @@ func C15(env *Env) {
 	// no device outcome crashes the client
 	env.safetyOf("C15", "client", "GetRawQuote")
 	env.safetyOf("C15", "client", "GetQuote", "client.GetRawQuote")
+	if f, g := env.fn("client", "GetRawQuote"), env.fn("client", "GetQuote"); f != nil && g != nil {
+		env.errorsNotLost("C15/ERRFLOW", inPackages(env.calleesBelow(f, g), "client", "client/linuxabi"))
+	}
+	r.Floor("C15/ERRFLOW", 5)
 	r.Floor("C15/B1", 3)
 	r.Floor("C15/REQ1", 3)
 	r.Floor("C15/REQ2", 6)
